@@ -26,8 +26,12 @@ records.  What is whole is what the request writes during one HOLDING of the mut
   the initial log followed by whole well-formed records.  (`log_during_holding`: while the request holds the mutex the
   log is `… ++ D₁ ++ R`, `R` a prefix of `out0`.)
 
-Scope: the fixed-writer system `Sys` of `Props/C10.lean` (the clone/drop variant `Sys2` has the same `step` for polls;
-not lifted here).  In `Sys` the parser is not fed, so the reply buffer never grows during a run; the parser-side
+Non-vacuity: `Example` (a 16-byte reply written as 5 + 11 bytes with a writer waiting on the mutex; the same with a
+clone taken mid-holding; the parser side on three queued replies).  The scenario is replayed on the crate through
+`poll_input` (which calls `poll_output`): `/verif/.run/replay-c10-replies.ops`, model = crate.
+
+Scope: the fixed-writer system `Sys` of `Props/C10.lean`, and (§4, `…2`) the variant `Sys2` with clones and drops at any
+moment.  In `Sys` the parser is not fed, so the reply buffer never grows during a run; the parser-side
 lemmas say what happens between runs.
 -/
 namespace Fcgi.C10R
@@ -37,7 +41,7 @@ open Fcgi.C12Inv (Whole AllWF whole_recordOf strParse_out OutW)
 /-! ## 1. C04 side: the reply buffer consists of whole records -/
 
 open Fcgi.Str in
-theorem outGrowth_whole (p : Str.Parser) (op : Op) (hmc : p.maxConns < 2 ^ 64) :
+theorem outGrowth_whole (p : Str.Parser) (op : Str.Op) (hmc : p.maxConns < 2 ^ 64) :
     Whole (C03S.outGrowth p op) ∧ (applyOp p op).maxConns = p.maxConns := by
   cases op with
   | parse new dest =>
@@ -61,7 +65,7 @@ theorem outGrowth_whole (p : Str.Parser) (op : Op) (hmc : p.maxConns < 2 ^ 64) :
 
 open Fcgi.Str in
 /-- **All replies the stream parser generates along any history of operations form whole, well-formed records.** -/
-theorem grown_whole (ops : List Op) : ∀ (p : Str.Parser), p.maxConns < 2 ^ 64 → Whole (C03S.grownAll p ops) := by
+theorem grown_whole (ops : List Str.Op) : ∀ (p : Str.Parser), p.maxConns < 2 ^ 64 → Whole (C03S.grownAll p ops) := by
   induction ops with
   | nil => intro p _; exact Whole.nil
   | cons op t ih =>
@@ -71,7 +75,7 @@ theorem grown_whole (ops : List Op) : ∀ (p : Str.Parser), p.maxConns < 2 ^ 64 
 
 open Fcgi.Str in
 /-- what was handed to the transport so far, followed by what is still queued, is whole -/
-theorem parser_output_ledger_whole (p : Str.Parser) (ops : List Op) (hmc : p.maxConns < 2 ^ 64)
+theorem parser_output_ledger_whole (p : Str.Parser) (ops : List Str.Op) (hmc : p.maxConns < 2 ^ 64)
     (h0 : Whole p.output) : Whole (C03S.sentAll p ops ++ (applyOps p ops).output) := by
   rw [C03S.output_ledger]
   exact h0.append (grown_whole ops p hmc)
@@ -80,7 +84,7 @@ open Fcgi.Str in
 /-- **`OutWF`**: the reply buffer is whole as long as nothing of it was consumed (the state in which the request
 acquires the mutex for the first time); in general it is whole whenever what was consumed so far is
 (`parser_output_ledger_whole`: `consume_output` may stop inside a record — that is the partial write). -/
-theorem parser_output_whole (p : Str.Parser) (ops : List Op) (hmc : p.maxConns < 2 ^ 64)
+theorem parser_output_whole (p : Str.Parser) (ops : List Str.Op) (hmc : p.maxConns < 2 ^ 64)
     (h0 : Whole p.output) (hns : C03S.sentAll p ops = []) : Whole (applyOps p ops).output := by
   have := parser_output_ledger_whole p ops hmc h0
   rwa [hns, List.nil_append] at this
@@ -291,7 +295,8 @@ theorem replies_one_holding (s : Sys) (ops : List Op) (h0 : StartOK s)
     rw [hlen]; omega
   have := rq_run s.req.sp.output ops _ s _ _ [] hL hwb hrec
     ⟨[], [], [], rfl, Whole.nil, Whole.nil, rfl, fun h => absurd rfl h⟩
-  simpa using this
+  rw [List.nil_append] at this
+  exact this
 
 /-- **Log level, counting reply holdings.**  Whenever the request does not hold the mutex, everything completed so far —
 stream records and reply chunks together — is a concatenation of complete, well-formed records. -/
@@ -334,5 +339,191 @@ theorem log_during_holding (s : Sys) (ops : List Op) (h0 : StartOK s)
   · obtain ⟨-, hD2⟩ := hcl hRe hon
     subst hD2
     exact ⟨D1, R, by rw [hlog]; simp, w1, hR⟩
+
+/-! ## 4. The same with clones and drops at any moment (`Sys2`) -/
+
+theorem rq_step2 {g : Ghost} {s : Sys2} {done cur out0 B : Bytes} (hL : LogInv g s.sys done cur) {op : Op2}
+    (hok : OpOK2 g s op) (hq : RQ out0 s.sys B)
+    (hrec : ∀ i rt id pl, Entry.record i rt id pl ∈ emitted2 s op → pl.length ≤ 65535) :
+    RQ out0 (step2 s op).sys (B ++ (emitted2 s op).flatMap Entry.bytes) := by
+  unfold OpOK2 at hok
+  unfold emitted2 at hrec
+  unfold step2 emitted2
+  by_cases hb : op.blocked s = true
+  · simp only [hb, if_true]
+    simpa using hq
+  · simp only [hb, if_false, Bool.false_eq_true] at hok hrec ⊢
+    cases op with
+    | old o => exact rq_step hL hok hq hrec
+    | clone i =>
+      simp only
+      cases hw : s.sys.writers[i]? with
+      | none => simpa using hq
+      | some w => simpa [RQ] using hq
+    | drop i =>
+      simp only
+      cases hw : s.sys.writers[i]? with
+      | none => simpa using hq
+      | some w =>
+        obtain ⟨D1, R, D2, hB, w1, w2, hR, hcl⟩ := hq
+        refine ⟨D1, R, D2, by simpa using hB, w1, w2, hR, fun hRn hon => ?_⟩
+        obtain ⟨hm0, hD2⟩ := hcl hRn hon
+        refine ⟨?_, hD2⟩
+        show lockDrop w.lock s.sys.mutex = some 0
+        have hc := hL.own.writers i w hw
+        unfold Consistent at hc
+        cases hl : w.lock with
+        | held => rw [hm0] at hc; have := hc.1 hl; cases this
+        | none => rw [hm0]; rfl
+        | polling => rw [hm0]; rfl
+
+theorem rq_run2 (out0 : Bytes) (ops : List Op2) : ∀ (g : Ghost) (s : Sys2) (done cur B : Bytes),
+    LogInv g s.sys done cur → WellBehaved2 g s ops →
+    (∀ i rt id pl, Entry.record i rt id pl ∈ completed2 s ops → pl.length ≤ 65535) →
+    RQ out0 s.sys B → RQ out0 (run2 s ops).sys (B ++ (completed2 s ops).flatMap Entry.bytes) := by
+  induction ops with
+  | nil => intro g s done cur B _ _ _ hq; simpa [completed2, run2] using hq
+  | cons op ops ih =>
+    intro g s done cur B hL hwb hrec hq
+    obtain ⟨hok, hrest⟩ := hwb
+    obtain ⟨cur1, hL1⟩ := logInv_step2 hL op hok
+    have h1 := rq_step2 hL hok hq (fun i rt id pl hm => hrec i rt id pl (by
+      simp only [completed2, List.mem_append]; exact Or.inl hm))
+    have h2 := ih _ _ _ _ _ hL1 hrest (fun i rt id pl hm => hrec i rt id pl (by
+      simp only [completed2, List.mem_append]; exact Or.inr hm)) h1
+    simpa [completed2, run2, List.flatMap_append, List.append_assoc] using h2
+
+/-- `replies_one_holding` with clones taken and writers dropped at any moment. -/
+theorem replies_one_holding2 (s : Sys2) (ops : List Op2) (h0 : StartOK s.sys)
+    (hwb : WellBehaved2 (fun _ => none) s ops) :
+    ∃ D1 R D2, (completed2 s ops).flatMap Entry.bytes = D1 ++ R ++ D2 ∧ Whole D1 ∧ Whole D2 ∧
+      R ++ (run2 s ops).sys.req.sp.output = s.sys.req.sp.output ∧
+      (R ≠ [] → (run2 s ops).sys.req.sp.output ≠ [] → (run2 s ops).sys.mutex = some 0 ∧ D2 = []) := by
+  have hL : LogInv (fun _ => none) s.sys s.sys.t.wlog [] :=
+    ⟨h0.own, by simp, fun i w hw _ => h0.idle i w hw, fun i w buf _ hg => (by cases hg), fun _ => rfl⟩
+  have hrec : ∀ i rt id pl, Entry.record i rt id pl ∈ completed2 s ops → pl.length ≤ 65535 := by
+    intro i rt id pl hm
+    obtain ⟨buf, w, -, -, -, -, -, -, hlen⟩ := completed_records2 ops _ s _ _ hL hwb i rt id pl hm
+    rw [hlen]; omega
+  have := rq_run2 s.sys.req.sp.output ops _ s _ _ [] hL hwb hrec
+    ⟨[], [], [], rfl, Whole.nil, Whole.nil, rfl, fun h => absurd rfl h⟩
+  rw [List.nil_append] at this
+  exact this
+
+theorem completed_whole2 (s : Sys2) (ops : List Op2) (h0 : StartOK s.sys)
+    (hwb : WellBehaved2 (fun _ => none) s ops) (hm : (run2 s ops).sys.mutex ≠ some 0) :
+    Whole ((completed2 s ops).flatMap Entry.bytes) := by
+  obtain ⟨D1, R, D2, hB, w1, w2, hR, hcl⟩ := replies_one_holding2 s ops h0 hwb
+  rw [hB]
+  by_cases hRe : R = []
+  · rw [hRe, List.append_nil]; exact w1.append w2
+  · by_cases hon : (run2 s ops).sys.req.sp.output = []
+    · rw [hon, List.append_nil] at hR
+      rw [hR]; exact (w1.append h0.out).append w2
+    · exact absurd (hcl hRe hon).1 hm
+
+/-- With clones and drops: when the mutex is free the byte log is the initial log followed by complete, well-formed
+records — stream records of originals and clones, and the request's replies. -/
+theorem log_whole_when_free2 (s : Sys2) (ops : List Op2) (h0 : StartOK s.sys)
+    (hwb : WellBehaved2 (fun _ => none) s ops) (hfree : (run2 s ops).sys.mutex = none) :
+    ∃ W, (run2 s ops).sys.t.wlog = s.sys.t.wlog ++ W ∧ Whole W :=
+  ⟨_, complete_when_free2 s ops h0.own h0.idle hwb hfree,
+    completed_whole2 s ops h0 hwb (by rw [hfree]; exact fun h => by cases h)⟩
+
+/-! ## Non-vacuity: a reply written in two partial writes, a writer waiting on the mutex meanwhile -/
+namespace Example
+open Fcgi.C12Inv (whole_unknown)
+
+/-- decidable `WellBehaved` for concrete schedules -/
+def wbb : Ghost → Sys → List Op → Bool
+  | _, _, [] => true
+  | g, s, op :: ops => opOKb g s op && wbb (gstep g s op) (step s op) ops
+
+theorem wbb_sound : ∀ (ops : List Op) (g : Ghost) (s : Sys), wbb g s ops = true → WellBehaved g s ops := by
+  intro ops
+  induction ops with
+  | nil => intro g s _; trivial
+  | cons op ops ih =>
+    intro g s h
+    simp only [wbb, Bool.and_eq_true] at h
+    exact ⟨opOKb_sound h.1, ih _ _ h.2⟩
+
+/-- One Stdout writer of request 7.  The request's parser has one reply queued: `UnknownType(99)` for id 0 (16 bytes).
+The transport accepts 5 bytes, answers `Pending`, then accepts 11 bytes, then everything. -/
+def xSys : Sys :=
+  { writers := [{ rtype := RT.stdout, id := 7 }],
+    req := { sp := { Str.Parser.fromParser 64 { id := 7, role := 1, flags := 0, env := [] } [] 10 with
+                     output := UnknownType.toRecord 99 0 },
+             writeable := true },
+    mutex := none,
+    t := { input := [], endMode := .pend, rd := [], wr := [.n 5, .pending, .n 11], fl := [] } }
+
+/-- `poll_output` (takes the mutex, 5 bytes out, `Pending`); the writer's `poll_write("AB")` has to wait; `poll_output`
+again (the other 11 bytes, `Ready`, mutex released); the writer's `poll_write("AB")` again (its record) -/
+def xOps : List Op := [.opoll, .wpoll 0 [0x41, 0x42], .opoll, .wpoll 0 [0x41, 0x42]]
+
+theorem xStart : StartOK xSys := by
+  refine ⟨⟨fun i w hi => ?_, by unfold Consistent; decide, fun j hj => by cases hj⟩, fun i w hi => ?_,
+    whole_unknown 99 0⟩
+  · match i, hi with
+    | 0, hi => cases hi; unfold Consistent; decide
+    | n + 1, hi => simp [xSys] at hi
+  · match i, hi with
+    | 0, hi => cases hi; rfl
+    | n + 1, hi => simp [xSys] at hi
+
+theorem xWB : WellBehaved (fun _ => none) xSys xOps := wbb_sound _ _ _ (by decide)
+
+/-- after the first two polls: 5 of the 16 reply bytes are on the wire, the request holds the mutex, the writer waits
+(lock future `Polling`, nothing written) -/
+theorem x_mid :
+    (run xSys (xOps.take 2)).t.wlog = [1, 11, 0, 0, 0] ∧ (run xSys (xOps.take 2)).mutex = some 0 ∧
+    ((run xSys (xOps.take 2)).writers[0]?.map (·.lock)) = some .polling ∧
+    (run xSys (xOps.take 2)).req.sp.output.length = 11 := by decide
+
+/-- the two reply chunks are separate entries: 5 bytes, then 11 bytes — neither is a whole record … -/
+theorem x_entries : (completed xSys xOps).map Entry.bytes =
+    [[1, 11, 0, 0, 0], [8, 0, 0, 99, 0, 0, 0, 0, 0, 0, 0], recordOf 6 7 [0x41, 0x42]] := by decide
+
+/-- … but the holding is: `replies_one_holding` / `log_whole_when_free` applied — the log is the whole reply record
+followed by the writer's whole record -/
+theorem x_log : ∃ W, (run xSys xOps).t.wlog = xSys.t.wlog ++ W ∧ Whole W :=
+  log_whole_when_free xSys xOps xStart xWB (by decide)
+
+theorem x_log_bytes : (run xSys xOps).t.wlog = UnknownType.toRecord 99 0 ++ recordOf 6 7 [0x41, 0x42] := by decide
+
+/-- in the middle of the holding: `log_during_holding` applied -/
+theorem x_holding : ∃ D R, (run xSys (xOps.take 2)).t.wlog = xSys.t.wlog ++ D ++ R ∧ Whole D ∧
+    R ++ (run xSys (xOps.take 2)).req.sp.output = xSys.req.sp.output :=
+  log_during_holding xSys (xOps.take 2) xStart (wbb_sound _ _ _ (by decide)) (by decide) (by decide)
+
+/-- The same with a clone taken WHILE the request is in the middle of its replies: the clone's write waits, the source
+is dropped at the end. -/
+def x2 : Sys2 := ⟨xSys, []⟩
+def xOps2 : List Op2 :=
+  [.old .opoll, .clone 0, .old (.wpoll 1 [0x58, 0x59]), .old .opoll, .old (.wpoll 1 [0x58, 0x59]), .drop 0]
+
+theorem x2_log : ∃ W, (run2 x2 xOps2).sys.t.wlog = x2.sys.t.wlog ++ W ∧ Whole W :=
+  log_whole_when_free2 x2 xOps2 xStart (wellBehaved2b_sound _ _ _ (by decide)) (by decide)
+
+theorem x2_log_bytes : (run2 x2 xOps2).sys.t.wlog = UnknownType.toRecord 99 0 ++ recordOf 6 7 [0x58, 0x59] ∧
+    (run2 x2 (xOps2.take 3)).sys.mutex = some 0 ∧ (run2 x2 (xOps2.take 3)).sys.t.wlog = [1, 11, 0, 0, 0] := by
+  decide
+
+/-! ### The parser side on an instance -/
+
+/-- a Responder's stream parser is fed, in two chunks, a `GetValues(FCGI_MAX_CONNS)` record, an unknown type 99 and a
+`BeginRequest` of a foreign id: three replies are queued -/
+def pOps : List Str.Op :=
+  [.parse [1, 9, 0, 0, 0, 16, 0, 0, 14, 0, 70, 67, 71, 73, 95, 77, 65, 88, 95, 67] none,
+   .parse [79, 78, 78, 83, 1, 99, 0, 0, 0, 0, 0, 0, 1, 1, 0, 5, 0, 8, 0, 0, 0, 1, 0, 0, 0, 0, 0, 0] (some 4),
+   .compress]
+def pP : Str.Parser := Str.Parser.fromParser 128 { id := 1, role := 1, flags := 0, env := [] } [] 10
+
+/-- `parser_output_whole` applied: the 64 queued bytes are whole well-formed records (`OutWF` at acquisition) -/
+theorem p_whole : Whole (Str.applyOps pP pOps).output ∧ (Str.applyOps pP pOps).output.length = 64 :=
+  ⟨parser_output_whole pP pOps (by decide) Whole.nil (by decide +kernel), by decide +kernel⟩
+
+end Example
 
 end Fcgi.C10R
